@@ -150,9 +150,9 @@ def capture(baseline=True):
             v = ns[k]
             values[k] = v
             if _is_container(v):
-                if isinstance(v, _WEAK) and baseline:
+                if isinstance(v, _WEAK) and baseline is True:
                     v.clear()
-                contents[k] = (v, _content(v, keep_weak=not baseline))
+                contents[k] = (v, _content(v, keep_weak=baseline is False))
         levels.append((owner, values, contents))
         if depth >= 2:
             return
@@ -167,9 +167,23 @@ def capture(baseline=True):
 
     for name, m in _modules():
         level(m, 0)
-    if baseline:
+    if baseline == 'import':
+        _import_baseline[0] = levels
+    elif baseline:
         _baseline[0] = levels
     return levels
+
+
+_import_baseline = [None]
+
+
+def restore_import():
+    """Put sigtools' process-wide state back to what it was right after import, before
+    anything was ever retrieved in this process (captured by the runner before warm-up): the
+    next retrieval is the first of the process (lazily built tables, one-time set-up)."""
+    if _import_baseline[0] is None:
+        return 0
+    return restore(_import_baseline[0])
 
 
 class isolated(object):
@@ -355,3 +369,41 @@ def container_sizes():
             except Exception:
                 out.append(-1)
     return out
+
+
+_first_use = [None]
+
+
+def first_use_state():
+    """Does the tree keep process-wide state that the first retrievals of a process set up
+    once (a lazily filled table, a flag)?  True when a container or data-like value differs
+    between the import-time record and the post-warm-up record (per-thread locals aside).
+    False on the tree as given."""
+    if _first_use[0] is not None and _first_use[0][0] is _baseline[0]:
+        return _first_use[0][1]
+    a, b = _import_baseline[0], _baseline[0]
+    found = False
+    if a is not None and b is not None:
+        imp = {}
+        for owner, values, contents in a:
+            for k, (cont, content) in contents.items():
+                if not isinstance(cont, threading.local) and not isinstance(cont, _WEAK):
+                    imp[(id(owner), k)] = len(content)
+            for k, v in values.items():
+                if k not in contents and not isinstance(v, (types.FunctionType, type, types.ModuleType,
+                                                             types.BuiltinFunctionType)):
+                    imp[(id(owner), k, 'v')] = id(v)
+        for owner, values, contents in b:
+            for k, (cont, content) in contents.items():
+                if isinstance(cont, threading.local) or isinstance(cont, _WEAK):
+                    continue
+                if imp.get((id(owner), k), len(content)) != len(content):
+                    found = True
+            for k, v in values.items():
+                if k in contents or isinstance(v, (types.FunctionType, type, types.ModuleType,
+                                                    types.BuiltinFunctionType)):
+                    continue
+                if imp.get((id(owner), k, 'v'), id(v)) != id(v):
+                    found = True
+    _first_use[0] = (_baseline[0], found)
+    return found
